@@ -9,7 +9,9 @@ from fractions import Fraction
 
 from hypothesis import strategies as st
 
+from .. import lmlay
 from ..core import Info, expect_raises, require, subcheck
+from ..gen import weighted
 from ..oracles import c18_ref as R
 
 Q = 16  # feature values are integers / 16
@@ -33,6 +35,27 @@ def _tensor(arr_int, dtype):
     import torch
 
     return (torch.tensor(arr_int.tolist(), dtype=torch.float64) / Q).to(getattr(torch, dtype)).reshape(arr_int.shape)
+
+
+# sizes that cross typical implementation thresholds (block sizes, special paths)
+SIZES = [15, 16, 17, 31, 32, 33, 63, 64, 65, 127, 128, 129, 255, 256, 257, 1023, 1024, 1025, 2049]
+LAYOUTS = lmlay.LAYOUTS   # own / offset / col_slice / transposed / strided: how a tensor argument sits in memory
+
+
+def _all_or_few(sizes, few=4):
+    """Normally every size of the list (inside one case); short lists are what a failing case shrinks to."""
+    return weighted((1, st.lists(st.sampled_from(sizes), min_size=1, max_size=few, unique=True)), (9, st.just(list(sizes))))
+
+
+def _unchanged(what, t, keep):
+    import torch
+
+    same = torch.equal(t, keep) if not t.dtype.is_floating_point else bool(((t == keep) | (t.isnan() & keep.isnan())).all())
+    require(same, "%s modified its input tensor" % what, None, None)
+
+
+def _layout_classes(kind):
+    return ["layout_" + kind]
 
 
 # ====================================================================== MVN: tolerances
@@ -137,10 +160,17 @@ def _mvn_history(draw, tier):
     tail_bessel = draw(st.booleans())
     ops = [list(o) for o in prefix] + [["acc", i] for i in order] + [list(o) for o in extra]
     ops += [["store", tail_bessel, draw(st.booleans())], ["norm"]]
+    dtype = draw(st.sampled_from(["float32", "float32", "float64"]))
     return {
         "rank": rank, "dim": dim, "X": X, "parts": parts, "const": [list(c) for c in const], "ops": ops,
-        "dtype": draw(st.sampled_from(["float32", "float32", "float64"])),
+        "dtype": dtype,
         "eps": draw(st.sampled_from([None, None, None, 0.25, 4.0])),
+        # memory layout of every part; a large common offset per coefficient (float64 only: the squares of
+        # such values are not exact in float32); module in training mode
+        "layouts": draw(st.lists(st.sampled_from(LAYOUTS + ["own"]), min_size=nparts, max_size=nparts)),
+        "offset": (draw(st.lists(st.sampled_from([0, 0, 1 << 10, -(1 << 12), 1 << 12]), min_size=X, max_size=X))
+                   if dtype == "float64" else None),
+        "train": draw(st.booleans()),
     }
 
 
@@ -155,6 +185,10 @@ def _parts_int(case):
             idx = [slice(None)] * a.ndim
             idx[dim] = i
             a[tuple(idx)] = k
+        for i, off in enumerate(case.get("offset") or []):
+            idx = [slice(None)] * a.ndim
+            idx[dim] = i
+            a[tuple(idx)] += off
         out.append(a)
     return out
 
@@ -164,7 +198,8 @@ def _parts_int(case):
               "normalised dimension anywhere: stored mean/std == exact pooled statistics (fractions), normalised "
               "pooled data has mean 0 / variance 1, too-few-frames errors as documented",
           required_classes=["unsorted_3_parts", "bessel", "constant_coefficient", "kept_stats_then_more",
-                            "store_too_few", "single_frame_biased"])
+                            "store_too_few", "single_frame_biased", "layout_offset", "layout_col_slice",
+                            "layout_transposed", "layout_strided", "large_mean_float64", "eval_mode"])
 def _mvn_history_check(case):
     import numpy as np
     import torch
@@ -172,9 +207,12 @@ def _mvn_history_check(case):
 
     X, dim, dtype = case["X"], case["dim"], case["dtype"]
     parts = _parts_int(case)
-    tensors = [_tensor(a, dtype) for a in parts]
+    lay = list(case.get("layouts") or ["own"] * len(parts))
+    tensors = [lmlay.relayout(_tensor(a, dtype), lay[i], 1 + i % 2) for i, a in enumerate(parts)]
+    keeps = [t.clone() for t in tensors]
     eps = case["eps"]
     mvn = MeanVarianceNormalization(dim) if eps is None else MeanVarianceNormalization(dim, eps=eps)
+    mvn.train(bool(case.get("train", True)))
     eps_v = TINY if eps is None else eps
 
     pool = R.Pool(X, Q)
@@ -187,6 +225,8 @@ def _mvn_history_check(case):
         if op[0] == "acc":
             i = op[1] % len(parts)
             mvn.accumulate(tensors[i])
+            _unchanged("accumulate", tensors[i], keeps[i])
+            classes.update(_layout_classes(lay[i]))
             pool.add_frames(R.frames_of(parts[i], dim))
             pool_parts.append(i)
         elif op[0] == "store":
@@ -246,6 +286,7 @@ def _mvn_history_check(case):
             ys, xs = [], []
             for i in stored["parts"]:
                 y = mvn(tensors[i])
+                _unchanged("normalisation", tensors[i], keeps[i])
                 require(y.dtype == tensors[i].dtype, "normalised dtype", str(y.dtype), str(tensors[i].dtype))
                 ys.append(y.double().numpy())
                 xs.append(parts[i])
@@ -265,7 +306,25 @@ def _mvn_history_check(case):
     for a, b in zip(stores, stores[1:]):
         if not case["ops"][a][2] and any(o[0] == "acc" for o in case["ops"][a + 1:b]):
             classes.add("kept_stats_then_more")
+    if any(case.get("offset") or []):
+        classes.add("large_mean_float64")
+    classes.add("train_mode" if case.get("train", True) else "eval_mode")
     return Info(nontrivial=nontrivial, classes=sorted(classes))
+
+
+def _other_input(x, dim):
+    """A tensor of another shape (one more frame along some other axis, or one frame only) with the same
+    size along ``dim``: what a module 'has seen before'."""
+    import torch
+
+    shape = list(x.shape)
+    for a in range(len(shape)):
+        if a != dim % len(shape):
+            shape[a] += 1
+    n = 1
+    for k in shape:
+        n *= k
+    return ((torch.arange(n, dtype=torch.float64) * 7 % 13 - 6) / 4).reshape(shape).to(x.dtype)
 
 
 def _check_own(case, what, y, part_int, own, eps_v, mean_override=None, std_override=None):
@@ -307,13 +366,18 @@ def _mvn_formula(draw, tier):
         "dtype": draw(st.sampled_from(["float32", "float64"])),
         "eps": draw(st.sampled_from([None, None, 0.25, 4.0])),
         "api": draw(st.sampled_from(["module", "functional"])),
+        "layout": draw(st.sampled_from(LAYOUTS + ["own"])),
+        "stat_layout": draw(st.sampled_from(["own", "offset", "strided"])),
+        "twice": draw(st.booleans()),
     }
 
 
 @subcheck("C18", "mvn_formula", _mvn_formula, 500, 10000,
           doc="one tensor of rank 1..4, statistics given / partly given / absent, module and functional: "
               "y == (x - mean) / max(std, eps) with missing statistics taken from the input itself (exact oracle)",
-          required_classes=["own", "both", "mean_only", "std_only", "eps_dominates"])
+          required_classes=["own", "both", "mean_only", "std_only", "eps_dominates", "layout_offset", "layout_col_slice",
+                            "layout_transposed", "layout_strided", "statistics_offset", "statistics_strided",
+                            "module_used_before"])
 def _mvn_formula_check(case):
     import torch
     from pydrobert.torch.functional import mean_var_norm
@@ -322,28 +386,39 @@ def _mvn_formula_check(case):
     X, dim, dtype, mode = case["X"], case["dim"], case["dtype"], case["mode"]
     c2 = dict(case, parts=[{"shape": case["shape"], "vals": case["vals"]}])
     xi = _parts_int(c2)[0]
-    x = _tensor(xi, dtype)
+    lay, slay = case.get("layout", "own"), case.get("stat_layout", "own")
+    x = lmlay.relayout(_tensor(xi, dtype), lay, 2)
+    keep = x.clone()
     eps = case["eps"]
     eps_v = TINY if eps is None else eps
     mean_t = std_t = None
     mean_o = std_o = None
     if mode in ("both", "mean_only"):
-        mean_t = torch.tensor(case["mean"], dtype=torch.float64) / Q
+        mean_t = lmlay.relayout(torch.tensor(case["mean"], dtype=torch.float64) / Q, slay, 1)
         mean_o = [Fraction(k, Q) for k in case["mean"]]
     if mode in ("both", "std_only"):
-        std_t = torch.tensor(case["std"], dtype=torch.float64) / Q
+        std_t = lmlay.relayout(torch.tensor(case["std"], dtype=torch.float64) / Q, slay, 2)
         std_o = [k / Q for k in case["std"]]
     if case["api"] == "module":
         kw = {} if eps is None else {"eps": eps}
-        y = MeanVarianceNormalization(dim, mean_t, std_t, **kw)(x)
+        mod = MeanVarianceNormalization(dim, mean_t, std_t, **kw)
+        if case.get("twice"):
+            # the module has normalised another tensor (other shape, other values) before
+            mod(_other_input(x, dim))
+        y = mod(x)
     else:
         y = mean_var_norm(x, dim, mean_t, std_t) if eps is None else mean_var_norm(x, dim, mean_t, std_t, eps)
+    _unchanged("mean_var_norm", x, keep)
     require(y.dtype == x.dtype and y.shape == x.shape, "output dtype/shape", (str(y.dtype), list(y.shape)),
             (str(x.dtype), list(x.shape)))
     own = R.Pool(X, Q)
     own.add_frames(R.frames_of(xi, dim))
     _check_own(case, "mean_var_norm[%s]" % mode, y, xi, own, eps_v, mean_o, std_o)
-    classes = [mode, dtype, case["api"]]
+    classes = [mode, dtype, case["api"]] + _layout_classes(lay)
+    if mode != "own" and slay != "own":
+        classes.append("statistics_" + slay)
+    if case["api"] == "module" and case.get("twice"):
+        classes.append("module_used_before")
     stds = std_o if std_o is not None else [R.sqrt_fraction(v) for v in own.var(False)]
     if any(0 < s < eps_v for s in stds):
         classes.append("eps_dominates")
@@ -383,6 +458,9 @@ def _deltas(draw, tier):
         "pad_mode": mode, "value": draw(st.integers(-8 * Q, 8 * Q)) if mode == "constant" else 0,
         "dtype": draw(st.sampled_from(["float32", "float32", "float64"])),
         "api": draw(st.sampled_from(["module", "functional"])),
+        "layout": draw(st.sampled_from(LAYOUTS + ["own"])),
+        "scale_exp": draw(st.sampled_from([0, 0, 0, 40, -40, 100])),
+        "twice": draw(st.booleans()), "train": draw(st.booleans()),
     }
 
 
@@ -391,7 +469,8 @@ def _deltas(draw, tier):
               "== regression formula applied `order` times to the explicitly padded input (float64 loops), "
               "stacked / concatenated at dim",
           required_classes=["order>=2_stack_dim!=time", "concat_on_time_dim", "reflect", "circular", "constant_value",
-                            "negative_dims"])
+                            "negative_dims", "layout_offset", "layout_col_slice", "layout_transposed", "layout_strided",
+                            "values_scaled_up", "values_scaled_down", "module_used_before"])
 def _deltas_check(case):
     import numpy as np
     import torch
@@ -400,32 +479,48 @@ def _deltas_check(case):
 
     shape, dtype = list(case["shape"]), case["dtype"]
     xi = _np_int(shape, case["vals"])
-    x = _tensor(xi, dtype)
+    # every value (and the constant padding value) times a power of two: the operation is linear
+    factor = 2.0 ** case.get("scale_exp", 0)
+    lay = case.get("layout", "own")
+    x = lmlay.relayout(_tensor(xi, dtype) * factor, lay, 2)
+    keep = x.clone()
     rank = len(shape)
     dim, time_dim, concatenate = case["dim"], case["time_dim"], case["concatenate"]
     order, width, mode = case["order"], case["width"], case["pad_mode"]
-    value = case["value"] / Q
+    value = case["value"] / Q * factor
     if case["api"] == "module":
         # like every torch module, the layer's (filter) buffers have to be of the input's type
-        out = FeatureDeltas(dim, time_dim, concatenate, order, width, mode, value).to(x.dtype)(x)
+        mod = FeatureDeltas(dim, time_dim, concatenate, order, width, mode, value).to(x.dtype)
+        mod.train(bool(case.get("train", True)))
+        if case.get("twice"):
+            # the module has already been applied to a tensor of another shape
+            o = torch.ones([k + (2 if a == time_dim % rank else 1) for a, k in enumerate(shape)], dtype=x.dtype)
+            if mode not in ("reflect", "circular") or o.shape[time_dim] > order * width:
+                mod(o)
+        out = mod(x)
     else:
         out = feat_deltas(x, dim, time_dim, concatenate, order, width, mode, value)
+    _unchanged("feat_deltas", x, keep)
     td = time_dim % rank
     drank = rank if concatenate else rank + 1
     dd = dim % drank
-    D, A = R.deltas_nd(xi.astype(np.float64) / Q, td, order, width, mode, value)
+    D, A = R.deltas_nd(xi.astype(np.float64) / Q * factor, td, order, width, mode, value)
     exp = R.layout(D, dd, concatenate)
     scale = R.layout(A, dd, concatenate)
     require(list(out.shape) == list(exp.shape), "shape of deltas", list(out.shape), list(exp.shape))
     require(out.dtype == x.dtype, "dtype of deltas", str(out.dtype), str(x.dtype))
     obs = out.double().numpy()
     # filter coefficients are float32 (w / sum w^2 is inexact for width >= 2) whatever the input type
-    tol = 1e-5 * scale + 1e-12
+    tol = 1e-5 * scale + 1e-12 * factor
     bad = np.argwhere(~(np.abs(obs - exp) <= tol))
     if len(bad):
         k = tuple(int(i) for i in bad[0])
         require(False, "delta value at %r differs from the regression formula" % (k,), float(obs[k]), float(exp[k]))
-    classes = ["order_%d" % order, mode, "concat" if concatenate else "stack", dtype]
+    classes = ["order_%d" % order, mode, "concat" if concatenate else "stack", dtype] + _layout_classes(lay)
+    if case.get("scale_exp", 0):
+        classes.append("values_scaled_up" if case["scale_exp"] > 0 else "values_scaled_down")
+    if case["api"] == "module" and case.get("twice"):
+        classes.append("module_used_before")
     if order >= 2 and not concatenate and dd != td:
         classes.append("order>=2_stack_dim!=time")
     if concatenate and dd == td:
@@ -457,13 +552,19 @@ def _returns(draw, tier):
     r = draw(st.lists(st.lists(st.integers(-64, 64), min_size=N, max_size=N), min_size=T, max_size=T))
     return {"gamma": gamma, "r": r, "batch_first": draw(st.booleans()),
             "dtype": draw(st.sampled_from(["float32", "float32", "float64"])),
-            "api": draw(st.sampled_from(["module", "functional"]))}
+            "api": draw(st.sampled_from(["module", "functional"])),
+            # "view": the batch-first argument is the transposed view of the time-first tensor (and vice versa)
+            "layout": draw(st.sampled_from(LAYOUTS + ["own", "view"])),
+            "scale_exp": draw(st.sampled_from([0, 0, 0, 40, -40, 100])) if abs(gamma) <= 1 else 0,
+            "twice": draw(st.booleans())}
 
 
 @subcheck("C18", "returns", _returns, 700, 20000,
           doc="rewards (T<=64|200, N<=3, eighths), gamma in {0, 2^-10, .1, .5, .9, .99, 1, 1.5, -.5}, both layouts: "
               "== backward recursion R_t = r_t + gamma R_(t+1) in float64 (1e-4 of the absolute-value recursion), finite",
-          required_classes=["gamma_pow_T_underflows_float32", "gamma_zero", "gamma_above_one", "batch_first"])
+          required_classes=["gamma_pow_T_underflows_float32", "gamma_zero", "gamma_above_one", "batch_first",
+                            "layout_offset", "layout_col_slice", "layout_transposed", "layout_strided", "layout_view",
+                            "values_scaled_up", "values_scaled_down", "module_used_before"])
 def _returns_check(case):
     import torch
     from pydrobert.torch.functional import time_distributed_return
@@ -472,13 +573,25 @@ def _returns_check(case):
     gamma, dtype = float(case["gamma"]), case["dtype"]
     r8 = [list(row) for row in case["r"]]
     T, N = len(r8), len(r8[0])
-    r = [[k / 8.0 for k in row] for row in r8]
-    rt = torch.tensor(r, dtype=getattr(torch, dtype))  # (T, N)
-    arg = rt.t().contiguous() if case["batch_first"] else rt
+    factor = 2.0 ** case.get("scale_exp", 0)     # rewards times a power of two: the operation is linear
+    r = [[k / 8.0 * factor for k in row] for row in r8]
+    lay = case.get("layout", "own")
+    if lay == "view":
+        rt = torch.tensor(r, dtype=getattr(torch, dtype))  # (T, N)
+        arg = rt.t() if case["batch_first"] else rt.t().contiguous().t()
+    else:
+        rt = torch.tensor(r, dtype=getattr(torch, dtype))  # (T, N)
+        arg = lmlay.relayout(rt.t().contiguous() if case["batch_first"] else rt, lay, 2)
+    keep = arg.clone()
     if case["api"] == "module":
-        out = TimeDistributedReturn(gamma, case["batch_first"])(arg)
+        mod = TimeDistributedReturn(gamma, case["batch_first"])
+        if case.get("twice"):
+            # the module has already been applied to rewards of another shape (and type)
+            mod(torch.ones(N + 1, T + 2, dtype=torch.float64) if case["batch_first"] else torch.ones(T + 2, N + 1, dtype=torch.float64))
+        out = mod(arg)
     else:
         out = time_distributed_return(arg, gamma, case["batch_first"])
+    _unchanged("time_distributed_return", arg, keep)
     require(out.shape == arg.shape and out.dtype == arg.dtype, "shape/dtype of returns",
             (list(out.shape), str(out.dtype)), (list(arg.shape), str(arg.dtype)))
     obs = (out.t() if case["batch_first"] else out).double().tolist()
@@ -487,8 +600,12 @@ def _returns_check(case):
         for n in range(N):
             o, e = obs[t][n], exp[t][n]
             require(math.isfinite(o), "return at t=%d is not finite" % t, o, e)
-            require(abs(o - e) <= 1e-4 * scale[t][n] + 1e-30, "R_%d != r_%d + gamma R_%d" % (t, t, t + 1), o, e)
-    classes = ["gamma_%g" % gamma, dtype]
+            require(abs(o - e) <= 1e-4 * scale[t][n] + 1e-30 * factor, "R_%d != r_%d + gamma R_%d" % (t, t, t + 1), o, e)
+    classes = ["gamma_%g" % gamma, dtype] + _layout_classes(lay)
+    if case.get("scale_exp", 0):
+        classes.append("values_scaled_up" if case["scale_exp"] > 0 else "values_scaled_down")
+    if case["api"] == "module" and case.get("twice"):
+        classes.append("module_used_before")
     tiny = 2.0 ** -149 if dtype == "float32" else 5e-324
     under = gamma != 0 and abs(gamma) < 1 and abs(gamma) ** (T - 1) < tiny
     if under:
@@ -610,3 +727,392 @@ def _cli_check(case):
     if groups is not None and len(pools) >= 2:
         classes.append("several_groups")
     return Info(nontrivial=len(files) >= 3 and (groups is None or len(pools) >= 2), classes=classes)
+
+
+# ====================================================================== sizes across implementation thresholds
+#
+# Each of the sub-checks below takes ONE dimension through SIZES inside every case (so that every run
+# meets every threshold); the data is expanded deterministically from the few integers of the case.
+
+
+def _pattern(n, X, a, b, m, K):
+    """n frames of X integer numerators in [-K, K] (a pure function of the arguments)."""
+    import numpy as np
+
+    f = np.arange(n, dtype=np.int64)[:, None]
+    i = np.arange(X, dtype=np.int64)[None, :]
+    return ((a * f + b * i + (f * f) % m + 3 * i * i) % (2 * K + 1)) - K
+
+
+@st.composite
+def _mvn_large(draw, tier, which):
+    sizes = SIZES + ([4097] if tier == "thorough" and which != "X" else [])
+    return {
+        "which": which, "sizes": draw(_all_or_few(sizes)),
+        "a": draw(st.integers(1, 97)), "b": draw(st.integers(0, 50)), "m": draw(st.sampled_from([7, 11, 13, 17])),
+        "X": draw(st.sampled_from([1, 2, 3])), "frames": draw(st.sampled_from([1, 2, 3])),
+        "dim_last": draw(st.booleans()), "bessel": draw(st.booleans()),
+        "dtype": draw(st.sampled_from(["float32", "float32", "float64"])),
+        "layout": draw(st.sampled_from(LAYOUTS + ["own"])),
+    }
+
+
+def _mvn_large_check(case):
+    """frames: one accumulate() of n frames for every n (prefixes of one tensor); parts: n accumulate() calls of
+    1..3 frames with a store(delete_stats=False) at every n; X: n coefficients.  Stored statistics against exact
+    rational pooled statistics, then the normalised prefix / parts (element formula, mean 0, variance 1)."""
+    import numpy as np
+    import torch
+    from pydrobert.torch.modules import MeanVarianceNormalization
+
+    which, sizes, dtype, bessel = case["which"], sorted(case["sizes"]), case["dtype"], case["bessel"]
+    nmax = max(sizes)
+    classes = set(_layout_classes(case["layout"]))
+    c2 = {"X": None, "dim": None, "dtype": dtype, "rank": 2}
+
+    def stats_ok(mvn, pool, what):
+        mean, var, ex2 = pool.mean(), pool.var(bessel), [float(v) for v in pool.meansq()]
+        std, tol = [], []
+        for j in range(pool.X):
+            mo, me = float(mvn.mean[j]), float(mean[j])
+            require(abs(mo - me) <= 1e-12 * abs(me), "%s: stored mean of coefficient %d != pooled mean" % (what, j), mo, me)
+            se = R.sqrt_fraction(var[j])
+            t = _std_tolerance(se, ex2[j])
+            so = float(mvn.std[j])
+            require(not math.isnan(so) and abs(so - se) <= t, "%s: stored std of coefficient %d != pooled standard deviation"
+                    % (what, j), so, se)
+            std.append(se)
+            tol.append(t)
+        return mean, std, tol
+
+    def normalised_ok(mvn, xs, xis, dim, mean, std, tol, what):
+        ys = [mvn(x).double().numpy() for x in xs]
+        s_eff = [max(se, TINY) for se in std]
+        relstd = [t / s_ if se >= TINY else 0.0 for t, s_, se in zip(tol, s_eff, std)]
+        spread = [se > 0.0 for se in std]
+        _check_normalised(what, ys, xis, dim, mean, s_eff, relstd, dtype, "bessel" if bessel else "biased",
+                          sum(xi.size // len(mean) for xi in xis), spread)
+
+    if which in ("frames", "parts"):
+        X = case["X"]
+        per = 1 if which == "frames" else case["frames"]
+        total = nmax * per
+        # float32 sums of squares stay exact: total * K^2 < 2^24
+        K = max(1, min(16 * Q, int(math.isqrt((1 << 24) // total)) - 1))
+        xi = _pattern(total, X, case["a"], case["b"], case["m"], K)           # (frames, X)
+        dim = 1 if case["dim_last"] else 0
+        full_i = xi if dim == 1 else np.ascontiguousarray(xi.T)
+        full = lmlay.relayout(_tensor(full_i, dtype), case["layout"], 2)
+        keep = full.clone()
+        take = (lambda lo, hi: full[lo:hi]) if dim == 1 else (lambda lo, hi: full[:, lo:hi])
+        take_i = (lambda lo, hi: xi[lo:hi]) if dim == 1 else (lambda lo, hi: np.ascontiguousarray(xi[lo:hi].T))
+        if which == "frames":
+            pool, done = R.Pool(X, Q), 0
+            for n in sizes:
+                if n < 2 and bessel:
+                    continue
+                pool.add_frames(xi[done:n].tolist())
+                done = n
+                mvn = MeanVarianceNormalization(dim)
+                mvn.accumulate(take(0, n))
+                mvn.store(True, bessel)
+                mean, std, tol = stats_ok(mvn, pool, "accumulate(%d frames)" % n)
+                normalised_ok(mvn, [take(0, n)], [take_i(0, n)], dim, mean, std, tol, "normalise %d frames" % n)
+                classes.add("frames=%d" % n)
+        else:
+            pool = R.Pool(X, Q)
+            mvn = MeanVarianceNormalization(dim)
+            k = 0
+            for n in sizes:
+                while k < n:
+                    mvn.accumulate(take(k * per, (k + 1) * per))
+                    k += 1
+                pool.add_frames(xi[pool.n:n * per].tolist())
+                if pool.n < 2 and bessel:
+                    continue
+                mvn.store(False, bessel)
+                mean, std, tol = stats_ok(mvn, pool, "%d accumulate() calls" % n)
+                if n <= 300 or n == sizes[-1]:
+                    normalised_ok(mvn, [take(0, n * per)], [take_i(0, n * per)], dim, mean, std, tol,
+                                  "normalise after %d accumulate() calls" % n)
+                classes.add("parts=%d" % n)
+        _unchanged("accumulate / normalisation", full, keep)
+    else:
+        F = case["frames"] + 1
+        xi = _pattern(F, nmax, case["a"], case["b"], case["m"], 16 * Q)        # (F, Xmax)
+        dim = 1 if case["dim_last"] else 0
+        full_i = xi if dim == 1 else np.ascontiguousarray(xi.T)
+        full = lmlay.relayout(_tensor(full_i, dtype), case["layout"], 2)
+        for n in sizes:
+            x = full[:, :n] if dim == 1 else full[:n]
+            x_i = np.ascontiguousarray(xi[:, :n] if dim == 1 else xi[:, :n].T)
+            pool = R.Pool(n, Q)
+            pool.add_frames(xi[:, :n].tolist())
+            mvn = MeanVarianceNormalization(dim)
+            mvn.accumulate(x)
+            mvn.store(True, bessel)
+            mean, std, tol = stats_ok(mvn, pool, "%d coefficients" % n)
+            normalised_ok(mvn, [x], [x_i], dim, mean, std, tol, "normalise %d coefficients" % n)
+            # no stored statistics: the input's own
+            y = MeanVarianceNormalization(dim)(x)
+            _check_own(dict(c2, X=n, dim=dim), "own statistics, %d coefficients" % n, y, x_i, pool, TINY)
+            classes.add("X=%d" % n)
+    classes.update([dtype, "bessel" if bessel else "biased"])
+    return Info(nontrivial=max(sizes) > 1024, classes=sorted(classes))
+
+
+_MVN_LARGE = [
+    ("frames", 10, 100, "one accumulate() of n frames, n = 15..2049 (prefixes of one tensor)", "frames"),
+    ("parts", 10, 100, "n = 15..2049 accumulate() calls of 1..3 frames with a store at every threshold", "parts"),
+    ("X", 10, 100, "n = 15..2049 coefficients along the normalised dimension (stored and own statistics)", "X"),
+]
+for _k, _q, _t, _doc, _lab in _MVN_LARGE:
+    subcheck("C18", "mvn_large_" + _k, (lambda tier, _k=_k: _mvn_large(tier, _k)), _q, _t,
+             doc=_doc + "; data expanded from a few integers (values bounded so that float32 sums stay exact); stored "
+                        "mean/std == exact pooled statistics, normalised data checked element by element",
+             required_classes=["%s=%d" % (_lab, n) for n in (15, 16, 17, 1023, 1024, 1025, 2049)])(_mvn_large_check)
+
+
+# ---------------------------------------------------------------------- deltas
+
+
+@st.composite
+def _deltas_large(draw, tier, which):
+    if which == "width":
+        sizes = [4, 5, 7, 8, 9, 15, 16, 17, 31, 32, 33]
+        order = draw(st.sampled_from([1, 2]))
+    else:
+        sizes = SIZES + ([4097] if tier == "thorough" else [])
+        order = draw(st.sampled_from([2, 1, 3]))
+    return {
+        "which": which, "sizes": draw(_all_or_few(sizes)), "order": order,
+        "width": draw(st.sampled_from([2, 1, 3])),
+        "pad_mode": draw(st.sampled_from(PAD_MODES)), "value": draw(st.integers(-8 * Q, 8 * Q)),
+        "a": draw(st.integers(1, 97)), "b": draw(st.integers(0, 50)), "m": draw(st.sampled_from([7, 11, 13, 17])),
+        "other": draw(st.sampled_from([1, 2, 3])), "time_first": draw(st.booleans()),
+        "concatenate": draw(st.booleans()),
+        "dtype": draw(st.sampled_from(["float32", "float32", "float64"])),
+        "api": draw(st.sampled_from(["module", "functional"])),
+        "layout": draw(st.sampled_from(LAYOUTS + ["own"])),
+    }
+
+
+def _deltas_large_check(case):
+    """T: n frames for every n (prefixes of one (T, F) tensor); F: n features (columns of one tensor);
+    width: regression windows of +-n frames."""
+    import numpy as np
+    import torch
+    from pydrobert.torch.functional import feat_deltas
+    from pydrobert.torch.modules import FeatureDeltas
+
+    which, sizes, dtype = case["which"], sorted(case["sizes"]), case["dtype"]
+    order, mode, concatenate = case["order"], case["pad_mode"], case["concatenate"]
+    value = case["value"] / Q if mode == "constant" else 0.0
+    classes = set(_layout_classes(case["layout"]) + [mode, dtype, "order_%d" % order])
+    nmax = max(sizes)
+    if which == "T":
+        T, F = nmax, case["other"]
+    elif which == "F":
+        T, F = case["other"] + order * case["width"] + 1, nmax
+    else:
+        T, F = 2 * order * nmax + 3, case["other"]
+    xi = _pattern(T, F, case["a"], case["b"], case["m"], 16 * Q)       # (T, F)
+    tf = case["time_first"]
+    full_i = xi if tf else np.ascontiguousarray(xi.T)
+    full = lmlay.relayout(_tensor(full_i, dtype), case["layout"], 2)
+    keep = full.clone()
+    td = 0 if tf else 1
+    mods = {}
+    for n in sizes:
+        width = n if which == "width" else case["width"]
+        P = order * width
+        if which == "T":
+            t_n, f_n = n, F
+        elif which == "F":
+            t_n, f_n = T, n
+        else:
+            t_n, f_n = T, F
+        if (mode == "reflect" and t_n <= P) or (mode == "circular" and t_n < P):
+            classes.add("skipped_pad_longer_than_input")
+            continue
+        x = full[:t_n, :f_n] if tf else full[:f_n, :t_n]
+        x_i = xi[:t_n, :f_n] if tf else xi[:t_n, :f_n].T
+        dim = 1 - td if concatenate else 2
+        if case["api"] == "module":
+            key = width
+            if key not in mods:    # one module object for all sizes (but one per width)
+                mods[key] = FeatureDeltas(dim, td, concatenate, order, width, mode, value).to(x.dtype)
+            out = mods[key](x)
+        else:
+            out = feat_deltas(x, dim, td, concatenate, order, width, mode, value)
+        D, A = R.deltas_nd(np.ascontiguousarray(x_i).astype(np.float64) / Q, td, order, width, mode, value)
+        exp, scale = R.layout(D, dim, concatenate), R.layout(A, dim, concatenate)
+        require(list(out.shape) == list(exp.shape), "shape of deltas (%s=%d)" % (which, n), list(out.shape), list(exp.shape))
+        obs = out.double().numpy()
+        bad = np.argwhere(~(np.abs(obs - exp) <= 1e-5 * scale + 1e-12))
+        if len(bad):
+            k = tuple(int(i) for i in bad[0])
+            require(False, "%s=%d: delta value at %r differs from the regression formula" % (which, n, k), float(obs[k]), float(exp[k]))
+        classes.add("%s=%d" % (which, n))
+    _unchanged("feat_deltas", full, keep)
+    return Info(nontrivial=order >= 2, classes=sorted(classes))
+
+
+_DELTAS_LARGE = [
+    ("T", 10, 100, "sequence lengths 15..2049 (prefixes of one tensor)", [15, 16, 17, 1023, 1024, 1025, 2049]),
+    ("F", 10, 100, "feature sizes 15..2049 (columns of one tensor)", [15, 16, 17, 1023, 1024, 1025, 2049]),
+    ("width", 12, 100, "window half-widths 4..33, order 1..2", [8, 9, 15, 16, 17, 32, 33]),
+]
+for _k, _q, _t, _doc, _req in _DELTAS_LARGE:
+    subcheck("C18", "deltas_large_" + _k, (lambda tier, _k=_k: _deltas_large(tier, _k)), _q, _t,
+             doc=_doc + "; data expanded from a few integers; == regression formula on the explicitly padded input (float64 loops)",
+             required_classes=["%s=%d" % (_k, n) for n in _req])(_deltas_large_check)
+
+
+# ---------------------------------------------------------------------- returns
+
+
+@st.composite
+def _returns_large(draw, tier, which):
+    sizes = SIZES + ([4097] if tier == "thorough" else [])
+    return {
+        "which": which, "sizes": draw(_all_or_few(sizes)),
+        "gamma": draw(st.sampled_from([0.5, 0.9, 0.99, 1.0, 2.0 ** -10, -0.5, 0.1, 0.999])),
+        "a": draw(st.integers(1, 97)), "b": draw(st.integers(0, 50)), "m": draw(st.sampled_from([7, 11, 13, 17])),
+        "other": draw(st.sampled_from([1, 2, 3, 5])), "batch_first": draw(st.booleans()),
+        "dtype": draw(st.sampled_from(["float32", "float32", "float64"])),
+        "api": draw(st.sampled_from(["module", "functional"])),
+        "layout": draw(st.sampled_from(LAYOUTS + ["own"])),
+    }
+
+
+def _returns_large_check(case):
+    """T: horizons n (the first n steps of one reward tensor); N: batch sizes n (its first n sequences)."""
+    import numpy as np
+    import torch
+    from pydrobert.torch.functional import time_distributed_return
+    from pydrobert.torch.modules import TimeDistributedReturn
+
+    which, sizes, dtype, gamma, bf = case["which"], sorted(case["sizes"]), case["dtype"], float(case["gamma"]), case["batch_first"]
+    nmax = max(sizes)
+    T, N = (nmax, case["other"]) if which == "T" else (case["other"] + 2, nmax)
+    r8 = _pattern(T, N, case["a"], case["b"], case["m"], 64)           # (T, N) eighths
+    full = torch.tensor((r8 / 8.0).tolist(), dtype=getattr(torch, dtype)).reshape(T, N)
+    full = lmlay.relayout(full.t().contiguous() if bf else full, case["layout"], 2)
+    keep = full.clone()
+    mod = TimeDistributedReturn(gamma, bf)
+    classes = set(_layout_classes(case["layout"]) + ["gamma_%g" % gamma, dtype, "batch_first" if bf else "time_first"])
+    for n in sizes:
+        t_n, n_n = (n, N) if which == "T" else (T, n)
+        arg = full[:n_n, :t_n] if bf else full[:t_n, :n_n]
+        out = mod(arg) if case["api"] == "module" else time_distributed_return(arg, gamma, bf)
+        require(out.shape == arg.shape and out.dtype == arg.dtype, "shape/dtype of returns (%s=%d)" % (which, n),
+                (list(out.shape), str(out.dtype)), (list(arg.shape), str(arg.dtype)))
+        obs = (out.t() if bf else out).double().numpy()
+        exp, scale = R.returns((r8[:t_n, :n_n] / 8.0).tolist(), gamma)
+        exp, scale = np.array(exp).reshape(t_n, n_n), np.array(scale).reshape(t_n, n_n)
+        bad = np.argwhere(~(np.isfinite(obs) & (np.abs(obs - exp) <= 1e-4 * scale + 1e-30)))
+        if len(bad):
+            t, b = (int(i) for i in bad[0])
+            require(False, "%s=%d: R_%d != r_%d + gamma R_%d (sequence %d)" % (which, n, t, t, t + 1, b), float(obs[t, b]), float(exp[t, b]))
+        classes.add("%s=%d" % (which, n))
+    _unchanged("time_distributed_return", full, keep)
+    return Info(nontrivial=gamma != 0 and nmax > 1024, classes=sorted(classes))
+
+
+for _k, _doc in (("T", "horizons 15..2049 (the first n steps of one reward tensor)"),
+                 ("N", "batch sizes 15..2049 (the first n sequences of one reward tensor)")):
+    subcheck("C18", "returns_large_" + _k, (lambda tier, _k=_k: _returns_large(tier, _k)), 12, 120,
+             doc=_doc + ", gamma in {2^-10, .1, .5, .9, .99, .999, 1, -.5}, one module object for all sizes; == backward "
+                        "recursion in float64 (1e-4 of the absolute-value recursion), finite",
+             required_classes=["%s=%d" % (_k, n) for n in (15, 16, 17, 1023, 1024, 1025, 2049)])(_returns_large_check)
+
+
+# ---------------------------------------------------------------------- command line: many files
+
+
+@st.composite
+def _cli_many(draw, tier):
+    sizes = [15, 16, 17, 31, 32, 33, 63, 64, 65, 127, 128, 129, 255, 256, 257] + ([1023, 1024, 1025] if tier == "thorough" else [])
+    return {
+        "sizes": draw(_all_or_few(sizes)),
+        "a": draw(st.integers(1, 97)), "b": draw(st.integers(0, 50)), "m": draw(st.sampled_from([7, 11, 13, 17])),
+        "X": draw(st.sampled_from([1, 2])), "frames": draw(st.sampled_from([1, 2])), "dim": draw(st.sampled_from([-1, 0, 1, -2])),
+        "bessel": draw(st.booleans()), "num_workers": draw(st.sampled_from([0, 0, 0, 2])),
+        "dtype": draw(st.sampled_from(["float32", "float64"])), "warm": draw(st.booleans()),
+    }
+
+
+@subcheck("C18", "cli_many_files", _cli_many, 4, 30,
+          doc="one feature directory whose groups (--id2gid) have 15, 16, 17, ... 257 (thorough: ..1025) files each: saved "
+              "per-group mean/std == exact pooled statistics; the same directory without groups; optionally after another "
+              "run of the command on another directory in the same process",
+          required_classes=["files=15", "files=16", "files=17", "files=255", "files=256", "files=257"])
+def _cli_many_check(case):
+    import numpy as np
+    import torch
+    from pydrobert.torch import command_line
+
+    X, dim, dtype, bessel = case["X"], case["dim"], case["dtype"], case["bessel"]
+    sizes = sorted(case["sizes"])
+    total = sum(sizes)
+    F = case["frames"]
+    vals = _pattern(total * F, X, case["a"], case["b"], case["m"], 16 * Q)      # (total * F, X)
+    tmp = tempfile.mkdtemp(prefix="vf_")
+    pools, allpool = {}, R.Pool(X, Q)
+    try:
+        d = os.path.join(tmp, "feat")
+        os.makedirs(d)
+        lines = []
+        k = 0
+        for n in sizes:
+            gid = "g%d" % n
+            pools[gid] = R.Pool(X, Q)
+            for j in range(n):
+                a = vals[k * F:(k + 1) * F]            # (F, X); feature axis moved to --dim
+                k += 1
+                pools[gid].add_frames(a.tolist())
+                allpool.add_frames(a.tolist())
+                t = _tensor(np.ascontiguousarray(a), dtype)
+                if dim in (0, -2):
+                    t = t.t().contiguous()
+                fid = "u%d_%d" % (n, j)
+                torch.save(t, os.path.join(d, fid + ".pt"))
+                lines.append("%s %s" % (fid, gid))
+        path = os.path.join(tmp, "id2gid")
+        with open(path, "w") as fh:
+            fh.write("\n".join(lines) + "\n")
+        if case["warm"]:
+            d2 = os.path.join(tmp, "other")
+            os.makedirs(d2)
+            torch.save(torch.ones(3, 5), os.path.join(d2, "x.pt"))
+            rc = command_line.compute_mvn_stats_for_torch_feat_data_dir([d2, os.path.join(tmp, "o.pt"), "--bessel"])
+            require(not rc, "exit status of the earlier run", rc, 0)
+        base = ["--dim", str(dim), "--num-workers", str(case["num_workers"])] + (["--bessel"] if bessel else [])
+        out1, out2 = os.path.join(tmp, "groups.pt"), os.path.join(tmp, "all.pt")
+        rc = command_line.compute_mvn_stats_for_torch_feat_data_dir([d, out1, "--id2gid", path] + base)
+        require(not rc, "exit status of compute-mvn-stats-for-torch-feat-data-dir --id2gid", rc, 0)
+        rc = command_line.compute_mvn_stats_for_torch_feat_data_dir([d, out2] + base)
+        require(not rc, "exit status of compute-mvn-stats-for-torch-feat-data-dir", rc, 0)
+        got = torch.load(out1)
+        got_all = torch.load(out2)
+    finally:
+        shutil.rmtree(tmp, ignore_errors=True)
+    require(isinstance(got, dict) and set(got.keys()) == set(pools.keys()), "set of groups in the output",
+            sorted(map(str, got)) if isinstance(got, dict) else repr(type(got)), sorted(pools))
+    classes = set()
+    for gid, pool, st_ in [(g, p, got[g]) for g, p in pools.items()] + [("(all %d files)" % total, allpool, got_all)]:
+        mean, var, ex2 = pool.mean(), pool.var(bessel), [float(v) for v in pool.meansq()]
+        for j in range(X):
+            mo, me = float(st_["mean"][j]), float(mean[j])
+            require(abs(mo - me) <= 1e-12 * abs(me), "saved mean (group %s, coefficient %d)" % (gid, j), mo, me)
+            se = R.sqrt_fraction(var[j])
+            so = float(st_["std"][j])
+            require(not math.isnan(so) and abs(so - se) <= _std_tolerance(se, ex2[j]),
+                    "saved std (group %s, coefficient %d)" % (gid, j), so, se)
+        if gid.startswith("g"):
+            classes.add("files=%s" % gid[1:])
+    classes.update(["bessel" if bessel else "biased", "workers_%d" % case["num_workers"]])
+    if case["warm"]:
+        classes.add("command_run_before")
+    return Info(nontrivial=len(sizes) >= 3, classes=sorted(classes))
